@@ -577,5 +577,11 @@ class HeadTransformer:
                 elems.extend([_ast.ConditionalLiteral(loc, _ast.Literal(loc, _ast.Sign.NoSign, head), cond) for head in heads])
 
             rules.append(_ast.Rule(loc, _ast.Disjunction(loc, elems), [saux, false]))
+            if len(elems) > 1:
+                # gringo drops an instance of the disjunctive rule as soon as one
+                # of its head atoms is a fact; the other atoms would then not enter
+                # the atom base: each atom also gets a rule of its own
+                for elem in elems:
+                    rules.append(_ast.Rule(loc, _ast.Disjunction(loc, [elem]), [saux, false]))
 
         return aux, rules
